@@ -117,6 +117,7 @@ Fixpoint irr_loop (n : nat) (W P : poly) (MOD : Z) : bool :=      (* for dp = 1 
             if deg G1 >? 0 then false else irr_loop n' W' P MOD
   end.
 Definition is_irreducible (P : poly) (MOD : Z) : bool :=
+  if deg P <? 1 then false else          (* repaired behaviour (frag/C09.fix-4): zero and constants are rejected *)
   let W := pgcd (pdiff P) P in
   if deg W >? 0 then false
   else irr_loop (Z.to_nat (deg P / 2)) Xpoly P MOD.
@@ -138,9 +139,9 @@ Fixpoint sqr_loop (rem : nat) (W Y Zp : poly) (acc : list poly) : bool * list po
   end.
 Definition sqrfree (Nfact : Z) (P : poly) : Z * list poly :=
   if Nfact =? 0 then (0, []) else
-  let B := pdiff P in
-  let D := pgcd P B in
-  let A := pscale (inv (lc P)) P in
+  let A := pscale (inv (lc P)) P in     (* repaired behaviour (frag/C09.fix-1): the derivative is taken of the monic A *)
+  let B := pdiff A in
+  let D := pgcd A B in
   let C := pscale (inv (lc D)) D in
   if list_eq_dec Z.eq_dec C pone then (1, [A])
   else let W := pdiv A C in
@@ -323,6 +324,26 @@ Definition order (P F : poly) (MOD : Z) : Z :=
     end
   else 0.
 
+
+(* ---------- is_irreducible2 (givpoly1proot.inl), repaired behaviour (frag/C09.fix-2): Rabin's test.
+   X^(q^n) - X must vanish modulo P, and for each prime r | n  gcd(X^(q^(n/r)) - X, P) must be constant.
+   (The unrepaired code compared X^(q^n) mod P with the unreduced X and tested X^(q^(n/r)) - X <> 0 without the gcd.) *)
+Fixpoint irr2_loop (P : poly) (MOD : Z) (n : Z) (L : list Z) : bool :=
+  match L with
+  | [] => true
+  | r :: L' => if deg (pgcd (psub (ppowmod Xpoly (MOD ^ (n / r)) P) Xpoly) P) >? 0 then false
+               else irr2_loop P MOD n L'
+  end.
+Definition is_irreducible2 (P : poly) (MOD : Z) : bool :=
+  if deg P <? 1 then false else
+  let W := pgcd (pdiff P) P in
+  if deg W >? 0 then false
+  else let n := deg P in
+       match pmod (psub (ppowmod Xpoly (MOD ^ n) P) Xpoly) P with
+       | _ :: _ => false
+       | [] => irr2_loop P MOD n (prime_factors n)
+       end.
+
 (* ---------- searches for irreducible / primitive polynomials.
    set_coef R i a  =  _domain.assign(R[i], a) *)
 Fixpoint set_coef (R : poly) (i : nat) (a : Z) : poly :=
@@ -416,6 +437,18 @@ Definition ixe_irreducible (n : nat) (MOD : Z) (s : list Z) : option (poly * lis
   | (true, R) => Some (R, s)
   | (false, R) =>
     match find_irred_trinomial test R (zrange 2 (Z.of_nat n / 2 + 1)) MOD with
+    | (true, R') => Some (R', s)
+    | (false, _) => find_irred_randomial (S (length s)) test n MOD s
+    end
+  end.
+
+
+Definition ixe_irreducible2 (n : nat) (MOD : Z) (s : list Z) : option (poly * list Z) :=
+  let test := fun R => is_irreducible2 (norm R) MOD && is_prim_root Xpoly (norm R) MOD in
+  match find_irred_binomial test (monomial n) MOD with
+  | (true, R) => Some (R, s)
+  | (false, R) =>
+    match find_irred_trinomial2 test R (zrange 2 (Z.of_nat n)) MOD with
     | (true, R') => Some (R', s)
     | (false, _) => find_irred_randomial (S (length s)) test n MOD s
     end
